@@ -192,7 +192,7 @@ func c08r3(r *R) {
 	}
 	r.check(locked, "readHeaderContext#recheck-under-lock", rhc.Pos(), "isHeaderRead re-checked with headerMu held (two callers cannot both read the header)", "isHeaderRead is not re-checked under headerMu: two concurrent callers would both consume header bytes")
 	// the reader goroutine reads from the raw conn
-	for _, lit := range rhc.AnonFuncs {
+	for _, lit := range anonFuncs(rhc) {
 		for _, c := range calls(lit, nameIs("proxyproto.ReadHeader")) {
 			b := closureBindings(lit)
 			arg := describe(c.Common().Args[0])
@@ -545,10 +545,10 @@ func checkGlobalBytes(r *R, name, want string) {
 func c08r6(r *R) {
 	// v1 closure
 	pv := r.fn("proxyproto", "parseV1Header")
-	if len(pv.AnonFuncs) != 1 {
+	if len(anonFuncs(pv)) != 1 {
 		r.missing("parseV1Header closure")
 	}
-	lit := pv.AnonFuncs[0]
+	lit := anonFuncs(pv)[0]
 	b := closureBindings(lit)
 	bindName := func(i int) string {
 		if i < len(b) {
